@@ -101,6 +101,11 @@ def check(ctx):
                 f'{origin}: facility members as specified' if not problems else f'{origin}: ' + '; '.join(problems))
 
         # ---- C09.chain / C09.import -------------------------------------------------------------------------------------
+        # the constructor is rendered for the facilities of THIS origin: which of their members exist is what C09.members has
+        # just read off create_facilities
+        from ..template import TNone as _TNone
+        sc.known_none = {('facilities', (k_,)): (v_ is _TNone) for k_, v_ in fac.fields.items()
+                         if v_ is _TNone or isinstance(v_, TObj)}
         ctor = sc.select(w.values['create_constructor'])
         if not isinstance(ctor, TObj):
             run.violation('C09.chain', MOD, 'create_constructor', f'{origin}', f'no constructor for origin {origin}: {ctor!r}'[:160])
